@@ -155,7 +155,43 @@ static int astep_log(const char* fn, int kind, const volatile void* addr, uintpt
             a == (uintptr_t)&mi_subproc_default.abandoned_count ? "cnt" : "oscnt", (long)oldv); vf_log_line_end();
     return 1;
   }
+  /* ---- the words of the purge schedule (PurgeStepTrace.tla): the global expiry, an arena's expiry, the purge marks, the guard of
+     mi_arenas_try_purge (a function-local static: recognised by the function the operation sits in) */
+  if (a == (uintptr_t)&mi_arenas_purge_expire) {
+    vf_logf("{\"e\":\"pstep\",\"t\":%d,\"f\":\"%s\",\"k\":\"%s\",\"w\":\"g\",\"arena\":0,\"ok\":%s,\"o\":%d,\"n\":%d,\"hit\":[]}", cur_t, fn, kn[kind], ok ? "true" : "false",
+            kind == VF_K_STORE ? -1 : (oldv != 0), newv != 0); vf_log_line_end();
+    return 1;
+  }
+  if (!strcmp(fn, "mi_arenas_try_purge") && (kind == VF_K_CASS || kind == VF_K_CASW || kind == VF_K_STORE) && newv <= 1) {
+    int known = 0; size_t nn = mi_arena_get_count();
+    for (size_t i = 0; i < nn; i++) { mi_arena_t* ar = mi_arena_from_index(i); if (ar != NULL && a == (uintptr_t)&ar->purge_expire) known = 1; }
+    if (!known) {
+      vf_logf("{\"e\":\"pstep\",\"t\":%d,\"f\":\"%s\",\"k\":\"%s\",\"w\":\"guard\",\"arena\":0,\"ok\":%s,\"o\":%d,\"n\":%d,\"hit\":[]}", cur_t, fn, kn[kind], ok ? "true" : "false",
+              kind == VF_K_STORE ? -1 : (oldv != 0), newv != 0); vf_log_line_end();
+      return 1;
+    }
+  }
   size_t na = mi_arena_get_count();
+  for (size_t i = 0; i < na; i++) {
+    mi_arena_t* ar = mi_arena_from_index(i);
+    if (ar == NULL) continue;
+    if (a == (uintptr_t)&ar->purge_expire) {
+      vf_logf("{\"e\":\"pstep\",\"t\":%d,\"f\":\"%s\",\"k\":\"%s\",\"w\":\"a\",\"arena\":%d,\"ok\":%s,\"o\":%d,\"n\":%d,\"hit\":[]}", cur_t, fn, kn[kind], (int)i + 1, ok ? "true" : "false",
+              kind == VF_K_STORE ? -1 : (oldv != 0), newv != 0); vf_log_line_end();
+      return 1;
+    }
+    if (ar->blocks_purge != NULL && a >= (uintptr_t)ar->blocks_purge && a < (uintptr_t)(ar->blocks_purge + ar->field_count)) {
+      if (kind != VF_K_AND && kind != VF_K_OR) return 1;
+      size_t f = (a - (uintptr_t)ar->blocks_purge) / sizeof(mi_bitmap_field_t);
+      uintptr_t target = (kind == VF_K_OR ? newv : ~newv);
+      uintptr_t hit = (kind == VF_K_OR ? (target & ~oldv) : (target & oldv));
+      vf_logf("{\"e\":\"pstep\",\"t\":%d,\"f\":\"%s\",\"k\":\"%s\",\"w\":\"pm\",\"arena\":%d,\"ok\":true,\"o\":0,\"n\":0,\"hit\":[", cur_t, fn, kn[kind], (int)i + 1);
+      int first = 1;
+      for (int b = 0; b < 64; b++) if (hit & ((uintptr_t)1 << b)) { vf_logf("%s%zu", first ? "" : ",", f * 64 + (size_t)b); first = 0; }
+      vf_logf("]}"); vf_log_line_end();
+      return 1;
+    }
+  }
   for (size_t i = 0; i < na; i++) {
     mi_arena_t* ar = mi_arena_from_index(i);
     if (ar == NULL || ar->blocks_abandoned == NULL) continue;
